@@ -35,6 +35,22 @@ def load_catalog():
                 if props:
                     cat.append({'id': 'seeded:' + d, 'props': props, 'expect': 'fire', 'patch': pp,
                                 'clauses': {p: p + '-' for p in props}, 'edits': []})
+    # behaviour-preserving refactorings (written independently, equivalence demonstrated, suite green):
+    # every check whose modules they touch must stay silent on them
+    rdir = os.path.join(VERIF, 'variants', 'refactors')
+    if os.path.isdir(rdir):
+        from .props.common import PROPERTY_MODULES
+        for d in sorted(os.listdir(rdir)):
+            pp = os.path.join(rdir, d, 'patch.diff')
+            if not os.path.exists(pp):
+                continue
+            with open(pp, encoding='utf-8') as fh:
+                touched = {ln.split('/')[-1].strip()[:-3] for ln in fh if ln.startswith('+++ ') and ln.strip().endswith('.py')}
+            props = sorted(p for p, mods in PROPERTY_MODULES.items() if touched & set(mods))
+            if touched and 'C10' not in props:
+                props.append('C10')
+            if props:
+                cat.append({'id': 'refactor:' + d, 'props': props, 'expect': 'silent', 'patch': pp, 'edits': []})
     return cat
 
 
